@@ -1,0 +1,78 @@
+//go:build verif
+
+package rib
+
+import (
+	"sync/atomic"
+
+	spb "github.com/openconfig/gribi/v1/proto/service"
+)
+
+// This file is only compiled with the "verif" build tag. It provides the
+// conformance-checking harness with (a) a tracer that is called at the
+// linearisation points of the RIB and (b) read-only snapshots of internal
+// state that the public API does not expose. Nothing here changes behaviour.
+
+type verifTracerFn func(ev string, args ...any)
+
+var verifTracer atomic.Pointer[verifTracerFn]
+
+// VerifSetTracer installs fn as the receiver of trace events (nil removes it).
+func VerifSetTracer(fn func(ev string, args ...any)) {
+	if fn == nil {
+		verifTracer.Store(nil)
+		return
+	}
+	f := verifTracerFn(fn)
+	verifTracer.Store(&f)
+}
+
+func verifTrace(ev string, args ...any) {
+	if f := verifTracer.Load(); f != nil {
+		(*f)(ev, args...)
+	}
+}
+
+// VerifPendingEntry describes one held (pending) operation.
+type VerifPendingEntry struct {
+	NI string
+	Op *spb.AFTOperation
+}
+
+// VerifPending returns a snapshot of the held operations keyed by operation ID.
+func (r *RIB) VerifPending() map[uint64]VerifPendingEntry {
+	r.pendMu.RLock()
+	defer r.pendMu.RUnlock()
+	m := map[uint64]VerifPendingEntry{}
+	for id, e := range r.pendingEntries {
+		m[id] = VerifPendingEntry{NI: e.ni, Op: e.op}
+	}
+	return m
+}
+
+// VerifRefCounts is a snapshot of the reference counters of one network instance.
+type VerifRefCounts struct {
+	NextHop      map[uint64]uint64
+	NextHopGroup map[uint64]uint64
+}
+
+// VerifRefCounts returns a snapshot of the reference counters of every
+// network instance.
+func (r *RIB) VerifRefCounts() map[string]VerifRefCounts {
+	r.nrMu.RLock()
+	defer r.nrMu.RUnlock()
+	out := map[string]VerifRefCounts{}
+	for name, h := range r.niRIB {
+		h.refCounts.mu.RLock()
+		c := VerifRefCounts{NextHop: map[uint64]uint64{}, NextHopGroup: map[uint64]uint64{}}
+		for k, v := range h.refCounts.NextHop {
+			c.NextHop[k] = v
+		}
+		for k, v := range h.refCounts.NextHopGroup {
+			c.NextHopGroup[k] = v
+		}
+		h.refCounts.mu.RUnlock()
+		out[name] = c
+	}
+	return out
+}
